@@ -221,6 +221,9 @@ mut("terminal_column_wraps_at_64", ["C17", "C01", "C07"], [("kiki/src/data/table
                 .map(|i| i % 64)
                 .expect("Terminal not found in table"),""")], "ACTION columns computed modulo 64: needs > 64 terminals")
 
+mut("emitted_goto_lookup_truncates_state_to_u8", ["C01", "C02", "C03"], [(T2R, """    {goto_table_name}[top_state as usize][new_node_kind as usize]""", """    {goto_table_name}[top_state as u8 as usize][new_node_kind as usize]""")],
+    "the emitted GOTO lookup truncates the state to u8: only the compiled parser of a grammar with > 256 states shows it (tables and their text are right)")
+
 def main():
     a = sys.argv[1:]
     if not a or a[0] == "list":
